@@ -48,6 +48,19 @@ CHECKS = {
             "generated arrival sequences per run; the pre-fix ACK choice is refuted by a witness (C16_ack_refuted_before_fix).",
             "PARTIAL: see the evidence file's `partial` list for clauses not carried by a theorem (sender reliability/liveness).",
             "DESIGN.md section 4 C16, section 8"),
+    "C19": ("For every admissible history of stop()/restart(tau) calls by foreign processes and by the timer's own callback, at any instants "
+            "incl. the expiry instant and several per instant, one-shot and auto-restart, all positive timeouts: fires exactly at expiry / "
+            "every timeout (C19_fires_at_expiry, C19_auto_restart_period), stop is final, restart re-bases to r+tau from outside and from "
+            "the callback, firing instants strictly increase with exact args (no_double_fire, fires_only_at_expire_time), no error state "
+            "is reachable (timer_never_raises) via the invariant 'one live uninterrupted timer process waiting until exactly "
+            "expire_time'; three theorems show the pre-fix code raised. The model is compared action by action with the real Timer on "
+            "~550 (quick) / ~10500 (thorough) stepped executions per run.",
+            "Full. Assumed as admissibility of the automaton (and checked on every observed execution): kernel facts K1 (URGENT before "
+            "NORMAL, due events before the clock moves: C01) and K2 (Initialize before Interruption: C04). Outside: float rounding "
+            "(dyadic inputs; extra float-mode cases go through the monitor only), callbacks that raise, restart(tau<=0). restart() of an "
+            "already-fired one-shot does not re-arm (unspecified by C19; proved as C19_expired_one_shot_never_refires). Repairs: f3ce555, "
+            "4f3b0bd, ca556aa.",
+            "DESIGN.md section 4 C19, section 8"),
     "C20": ("C20_same_events (for every kernel state type and step function the real-time run performs exactly the plain run's steps), "
             "C20_never_early, C20_sleeps_exact, C20_strict_iff, C20_nonstrict_never_raises, C20_proceeds_when_reached: proved for ALL "
             "wall-clock reading sequences (sleeps early/late, arbitrary processing time). Tie: RealtimeEnvironment.step is run with a "
